@@ -227,6 +227,8 @@ class VersionedDict(object):
             version = int(version)
         except ValueError:
             raise ValueError("Version must be an integer: %s" % version)
+        if version < 1:
+            raise ValueError("Version must be a positive integer: %s" % version)
         if version > 1 and (version - 1) not in self._data[item]:
             raise KeyError("Cannot assign version %i of item before adding "
                            "version %i" % (version, version - 1))
